@@ -109,6 +109,9 @@ def install():
                  "accrued_interest", "holdings_values"):
         hook(Broker, name)
     hook(Rebalancing, "make_trades")
+    from tradingenv.exchange import Exchange
+    hook(Exchange, "process_EventNBBO")
+    hook(Exchange, "process_EventContractDiscontinued")
     hook(TrackRecord, "_checkpoint") if hasattr(TrackRecord, "_checkpoint") else None
     return True
 
